@@ -123,3 +123,28 @@ for _pid, _s in SCALE.items():
     if _pid in CLAIMED:
         t, text, note, ref = CLAIMED[_pid]
         CLAIMED[_pid] = (t, text + " Scale cases (deterministic, same oracles): " + _s + ".", note, ref)
+
+# classes added in the ninth to eleventh rounds of seeded changes (recovery, configuration, outage; DESIGN.md §0, §8)
+MORE = {
+    "C01": "link outages of 1 / 3.25 / 10 s beginning while a sliced message is partly delivered; ~75 pending ack ranges on a live link; a tick budget that makes the packer skip a message (non-consecutive ids in one packet)",
+    "C02": "the same outage, many-ack-ranges and skip-packing scenarios on unordered channels",
+    "C04": "sessions whose handshake ran over a lossy path (repeated response); jumps of exactly 64 / 128 / 192 sequence numbers",
+    "C05": "third search with sessions that end (time-out, kick, client disconnect) and restart; the token history on 1-3 slot servers; new tokens after ~2048 requests in total",
+    "C06": "receive channels 2400 / 2000 / 1300 bytes below their budget; a later update (4 s) and every channel getter after each hostile packet",
+    "C07": "floods: the same hostile datagram 2-1100 (thorough: 5000) times in a row; requests of tokens bound to another (connected / half-open) address; announced sequences around 2^31, 2^62, 2^63; the quick tier runs the thorough bounds",
+    "C08": "outage and skip-packing scenarios; ack packets of the peer that are themselves late packets",
+    "C09": "link outages on all three channel kinds with the residue oracle",
+    "C10": "max_clients changed at run time (raised at once / one by one / raised-lowered-raised) with overlapping handshakes for the last places; aggregate getters (clients_slot) agree with per-id ones",
+    "C11": "reconnect class: nine states an earlier session is left in x (same id / another id / local client) compared with a fresh server; a refused hostile slice and a 3.1 s tick in the alphabet",
+    "C12": "broadcasts over the channel budget; disconnect_local_client with the handle of the previous local session; connected_clients / has_connections / network_info agree with the per-id getters",
+    "C13": "fill sweep (third message of every length 1-1300 across sequence-width boundaries); ack shapes built 'every second one, then the ones in between'; the quick tier runs the thorough bounds",
+    "C15": "3.4 s outages at 16 / 70 / 110 / 250 ms ticks; messages submitted in different ticks; tick budgets of 1-3 slices for a 3-slice message (budget-aware promptness)",
+    "C16": "255-600 messages per packet; tokens from ConnectToken::generate incl. repeated addresses; the ack packet is compared with the endpoint's own record, which is bounded by two reference sets; the quick tier runs the thorough bounds",
+    "C17": "tampered copies of a repeated request while its handshake is pending",
+    "C18": "a client returning from an address whose slot was re-used (kick / time-out / disconnect datagram x same / new id x 2, 3, 8 slots); fail-over between two different servers (first one silent from the start / after its challenge / after a lost response; tokens that expire and that never do)",
+    "C20": "sessions ended by broadcast_message / broadcast_message_except over the channel budget, one with a vanished peer",
+}
+for _pid, _s in MORE.items():
+    if _pid in CLAIMED:
+        t, text, note, ref = CLAIMED[_pid]
+        CLAIMED[_pid] = (t, text + " Further classes: " + _s + ".", note, ref)
